@@ -26,7 +26,7 @@ HORIZON = 4000.0
 RANK = {"INITIALIZED": 0, "SOCKET_OPENED": 1, "HANDSHAKE_COMPLETE": 2, "CONNECTED": 3, "CLOSED": 4}
 
 USER_ACTS = ("disconnect", "force", "cancel")
-FAULT_ACTS = ("eof", "reset", "writefail_raise", "writefail_fatal", "silence", "writefail_raise_rt")
+FAULT_ACTS = ("eof", "reset", "writefail_raise", "writefail_fatal", "silence", "writefail_raise_rt", "reset_etimedout", "lost_raw")
 FRAME_NAMES = (
     "discreq", "state", "state2", "ping", "pong", "devinfo", "unknown", "garbage", "reqenc", "badproto",
     "hello", "connresp", "discresp", "badmac", "gettime",
@@ -143,8 +143,15 @@ def run(case: dict, *, count_only: bool = False) -> Obs:
     if not case.get("auto", True):
         dev.auto = set()
     dev.latency = int(case.get("latency", 1)) * D
+    if case.get("invalid_password"):
+        dev.invalid_password = True
+    if case.get("api_major") is not None:
+        dev.api_version = (int(case["api_major"]), 10)
+    if case.get("device_name"):
+        dev.name = case["device_name"]
     hello_extra = list(case.get("hello_extra") or [])
-    if hello_extra:
+    hello_then = case.get("hello_then")  # "eof" | "reset": right behind the hello answer, in the same loop turn
+    if hello_extra or hello_then:
         # encoded lazily, in order, when the hello answer is built (needs the session's noise state)
         class _Lazy:
             pass
@@ -158,6 +165,9 @@ def run(case: dict, *, count_only: bool = False) -> Obs:
                 return
             data = b"".join(s.encode(m) for m in msgs) + encode_frames(s, hello_extra)
             s.send_raw(data, cuts=case.get("hello_cuts"))
+            if hello_then:
+                tr_ = s.transport
+                loop.sim_at(s._next_feed - START, tr_.feed_eof if hello_then == "eof" else tr_.reset)
 
         dev._flush_hello = flush  # type: ignore[method-assign]
     elif case.get("hello_cuts"):
@@ -290,6 +300,12 @@ def run(case: dict, *, count_only: bool = False) -> Obs:
             tr.feed_eof()
         elif act == "reset":
             tr.reset()
+        elif act == "reset_etimedout":
+            # the kernel gives up on the peer: connection_lost(TimeoutError(ETIMEDOUT)) – an OSError that is ALSO a TimeoutError
+            tr.reset(TimeoutError(110, "Connection timed out"))
+        elif act == "lost_raw":
+            # an exception that escaped data_received (e.g. a ValueError out of a converter): asyncio closes the transport with it
+            tr.reset(ValueError("invalid literal for int() with base 16: 'zz'"))
         elif act.startswith("writefail") and not tr.reading:
             # a write error cannot be armed before connection_made (no established transport yet)
             obs.skipped.append(f"{idx}:{act}-before-connection_made")
@@ -633,6 +649,8 @@ def oracle_c09(obs: Obs) -> list[Violation]:
                         f"{name} raised {type(val).__name__}: {str(val)[:200]} (frame {repo_frame_of(val)})",
                     )
                 )
+            if type(val).__name__ == "TimeoutAPIError" and _strip_idx(name) in ("main", "req") and "after 10" in str(val) and t1 - t0 < 10.0 - 1e-6 and "DeviceInfoResponse" in str(val):
+                v.append(Violation("C09", f"c09:timeout-reported-early:{_strip_idx(name)}", f"{name} reported '{str(val)[:80]}' after only {t1 - t0:.3f}s"))
         if t1 - t0 > op_bound(name, obs):
             v.append(Violation("C09", f"c09:too-slow:{_strip_idx(name)}", f"{name} took {t1 - t0}s > bound {op_bound(name, obs)}"))
     return v
@@ -734,7 +752,7 @@ def resolve_stage_sweep():
 # enumerated sweeps (finite sub-domains)
 # ===========================================================================
 SWEEP_CAUSES: list[dict] = (
-    [{"do": a} for a in ("disconnect", "force", "cancel", "eof", "reset", "writefail_raise", "writefail_fatal", "writefail_raise_rt", "reuse_start", "reuse_finish")]
+    [{"do": a} for a in ("disconnect", "force", "cancel", "eof", "reset", "reset_etimedout", "lost_raw", "writefail_raise", "writefail_fatal", "writefail_raise_rt", "reuse_start", "reuse_finish")]
     + [{"do": "chunk", "frames": f} for f in (["discreq"], ["garbage"], ["reqenc"], ["badproto"], ["badmac"], ["unknown"])]
     + [{"do": "chunk", "frames": f} for f in (["discreq", "state"], ["discreq", "ping"], ["discreq", "discreq"], ["garbage", "state"], ["state", "discreq", "state2"], ["badproto", "state"])]
 )
